@@ -1,2 +1,51 @@
-(* C01: statements only; theorems are added as the model of the anchored mechanism is proved *)
-From GGRS Require Import Base.
+(* C01 — every peer's confirmed timeline equals the serial replay of the true inputs.
+   Statements only.  Model: coq/P2P.v (session core) with Sync.v and Queue.v, tied to the code by the
+   `session` correspondence level; the user's game is the free game of SessionProofs.v, so "the value
+   the game last simulated for (frame f, player h)" is read off the game's own input history
+   [g_hist], which is exactly what the executed request lists (Load = truncate, Advance = append)
+   leave behind (SessionTimeline.exec_hist).
+
+   Space (decided on the state by SessionProgress.op_ok; srun_in = srun that answers Err at the first
+   operation outside it): rollback mode (max_prediction >= 1), dense saving, no spectators, nobody
+   disconnects; local players with a common input delay d, max_prediction + d + 3 <= INPUT_QUEUE_LENGTH;
+   remote players' inputs arrive in frame order while their ring has room (what the endpoint delivers:
+   props/C05.v, C11.v); add_local_input / advance_frame / arriving inputs / gossip in ANY interleaving.
+   Predictors: any function with predict (predict x) = predict x and predict 0 = 0 - both shipped
+   predictors (C01_predictors_qualify); see DESIGN.md for what happens without idempotence. *)
+From GGRS Require Import Base Consts Queue QueueProofs Sync P2P Session SessionProofs SessionProgress SessionTimeline.
+Open Scope Z_scope.
+
+(* After ANY run inside the space, however predictions, mispredictions, rollbacks, stalls at the
+   prediction threshold and late inputs interleaved: the request lists were executable, and every frame
+   f <= last confirmed frame that has been simulated was LAST simulated - for every player h - with the
+   input the session holds for (f, h) in that player's input history [hist] (the histories of the
+   invariant QS: for a remote player the inputs received, in order; for a local player the delayed
+   inputs registered - see C01_held_inputs_step).  The game state after those frames is therefore the serial
+   replay of the held inputs, whatever was predicted on the way. *)
+Theorem C01_confirmed_frames_use_held_inputs :
+  forall (predict : Z -> Z), (forall x, predict (predict x) = predict x) -> predict 0 = 0 ->
+  forall (ops : list sop) (n w d : Z) (kinds : list pkind) (eps : list (list Z)) (p : p2p) (outs : list (pout * apires)),
+  1 <= w -> 0 <= d -> w + d + 3 <= INPUT_QUEUE_LENGTH -> 0 < n -> Z.of_nat (length kinds) = n -> players_only kinds ->
+  srun_in predict (session_start n w false d kinds eps 0) ops = Ok (p, outs) ->
+  exists g gs, exec_outs w (game0 w) outs = Some g /\ QS w d p gs /\ gframe g = s_current (ps_sync p) /\
+    forall h hist low f, nth_error gs h = Some (hist, low) ->
+      0 <= f <= s_last_confirmed (ps_sync p) -> f < s_current (ps_sync p) ->
+      f < hlen hist /\ gvalL (g_hist g) f h = hval hist f.
+Proof. exact confirmed_frames_use_held_inputs. Qed.
+
+(* the two predictors ggrs ships: PredictRepeatLast and PredictDefault (default input = 0 in the model) *)
+Example C01_predictors_qualify :
+  (forall x : Z, (fun y => y) ((fun y => y) x) = (fun y => y) x) /\ (fun y : Z => y) 0 = 0 /\
+  (forall x : Z, (fun _ => 0) ((fun _ : Z => 0) x) = (fun _ : Z => 0) x) /\ (fun _ : Z => 0) 0 = 0.
+Proof. repeat split. Qed.
+
+(* non-vacuity: a run inside the space with a misprediction that is rolled back: player 1's inputs
+   7, 7 arrive after two frames were simulated with the prediction 0; afterwards frames 0 and 1 carry
+   7 for player 1 *)
+Definition c01_demo_ops : list sop :=
+  [SLocal 0 1; SAdvance; SLocal 0 1; SAdvance; SRemote 1 0 7; SRemote 1 1 7; SLocal 0 2; SAdvance].
+Example C01_demo :
+  exists p outs g, srun_in (fun x => x) (session_start 2 2 false 0 [KLocal; KRemote 0] [[1]] 0) c01_demo_ops = Ok (p, outs) /\
+    exec_outs 2 (game0 2) outs = Some g /\ s_last_confirmed (ps_sync p) = 1 /\
+    map (fun f => (gvalL (g_hist g) f 0, gvalL (g_hist g) f 1)) [0; 1; 2] = [(1, 7); (1, 7); (2, 7)].
+Proof. eexists. eexists. eexists. split; [vm_compute; reflexivity|]. split; [vm_compute; reflexivity|]. split; vm_compute; reflexivity. Qed.
